@@ -34,11 +34,12 @@ class PROP(PropCheck):
                  'IMPORT "SIN" FROM MOD "MATH"\nIMPORT ["SIN","COS"] FROM MOD "MATH"', "REPEAT 3 TIMES { IF (a) { BREAK } ELSE { CONTINUE } }",
                  "FOR EACH x IN [1,2] { DISPLAY(x) }", "REPEAT UNTIL (a > 3) { a <- a + 1 }", "a[1][2] <- f(1)[2] + -b * NOT c",
                  "IF (a) { } ELSE IF (b) { } ELSE { }", "EXPORT PROCEDURE p(a, b) { RETURN a + b\n}", "x <- y <- 3", "a AND b AND c OR d",
-                 "REPEAT 2 TIMES { PROCEDURE q() { RETURN 1 } }"]
+                 "REPEAT 2 TIMES { PROCEDURE q() { RETURN 1 } }", "x<-l[1]-1\ny<-l[i]-2*3\nREPEAT l[1]-3 TIMES{DISPLAY(f(x)-1)}",
+                 "PROCEDURE f(n){RETURN n[1]-1}", "REPEAT 3 TIMES {\nBREAK\nDISPLAY(1)\nCONTINUE\nDISPLAY(2)\n}"]
         bad = ["RETURN 1", "BREAK", "CONTINUE", "REPEAT 1 TIMES { PROCEDURE f() { BREAK } }", "PROCEDURE f() { } RETURN 2", "(a", "a)", "[1, 2",
                "{ a", "a + ", "f(a,", "a <- ", "IF (a { }", "1 <- 2", "(a) <- 1", "EXPORT 3", "PROCEDURE (a) {}", "PROCEDURE f a) {}",
                "FOR x IN l {}", "FOR EACH IN l {}", "FOR EACH x l {}", "REPEAT 3 { }", "REPEAT UNTIL a {}", "IMPORT MOD", "IMPORT \"a\" MOD \"b\"",
-               ") ) )", "a b", "}", "ELSE { }"]
+               ") ) )", "a b", "}", "ELSE { }", 'IMPORT [] FROM MOD "MATH"', 'IMPORT ["SIN",] FROM MOD "MATH"', 'IMPORT [,] FROM MOD "MATH"']
         return [Case(s, meta={"cls": "valid"}, kind="corpus") for s in valid] + [Case(s, meta={"cls": "reject"}, kind="corpus") for s in bad]
 
     def cases(self, rng, tier, scale=1):
@@ -50,7 +51,9 @@ class PROP(PropCheck):
             prog = g.program()
             toks = P.prog_toks(prog, full=(rng.random() < 0.1))
             k = rng.random()
-            if k < 0.55:
+            if k < 0.08:
+                out.append(Case(P.render(toks, rng, compact=True), meta={"cls": "valid", "compact": True}))
+            elif k < 0.55:
                 out.append(Case(P.render(toks, rng, vary=(rng.random() < 0.6), keyword_case=True), meta={"cls": "valid"}))
             elif k < 0.7:
                 out.append(Case(P.render(P.misplace(rng, toks), rng, vary=False), meta={"cls": "reject", "why": "misplaced"}))
